@@ -124,11 +124,20 @@ func race(file string, which []int, timeoutSec int, all bool) (solveOut, []solve
 // than the other on some queries), then, if neither decides, the remaining configurations with the long timeout.
 func discharge(file string, quickSec, fullSec int, all bool) (solveOut, []solveOut) {
 	if all {
-		var idx []int
-		for i := range solvers {
-			idx = append(idx, i)
+		// thorough: both z3 generations run to completion and must not contradict each other; only if neither decides are
+		// the remaining configurations (other seeds, cvc5) raced
+		best, tried := race(file, []int{0, 1}, fullSec, true)
+		if best.result == "unsat" || best.result == "sat" || best.result == "disagree" {
+			return best, tried
 		}
-		return race(file, idx, fullSec, true)
+		var rest []int
+		for i := range solvers {
+			if i >= 2 {
+				rest = append(rest, i)
+			}
+		}
+		b2, t2 := race(file, rest, fullSec, false)
+		return b2, append(tried, t2...)
 	}
 	best, tried := race(file, []int{0, 1}, quickSec, false)
 	if best.result == "unsat" || best.result == "sat" {
